@@ -23,6 +23,8 @@ TRUSTED_BASE = [
     "A1 floats treated as mathematical reals (DTYPE rebound to object; rounding/NaN/overflow not modelled)",
     "A3 CPython executes the real function bodies; pyvc proxies/AST call-shims assumed meaning-preserving "
     "(differential-tested against the plain package on every run)",
+    "A4 mathematical facts given to the solver as axioms (sqrt, trig signs, arccos, pow, Cauchy-Schwarz): proved over "
+    "Mathlib's reals in lean/Axioms.lean (re-checked by the thorough tier); that pyvc states the same formulas is by inspection",
     "A5 z3 4/5 (unsat verdicts), sympy polys (zero remainder) trusted",
     "divisors that are symbolic are assumed non-zero (ZeroDivision/inf paths not modelled)",
 ]
@@ -183,6 +185,32 @@ def native_replay(prop, proof_name, ci, inputs, seed):
     return json.loads(pr.stdout.split("@@RESULT@@")[1])
 
 
+def lean_axioms_start():
+    """A4: the mathematical facts handed to the solver are stated and proved over Mathlib's reals in
+    lean/Axioms.lean; the thorough tier re-checks that file (about 2 min, runs beside the pools)."""
+    import shutil
+
+    src = os.path.join(VERIF, "lean", "Axioms.lean")
+    if not os.path.exists(src) or shutil.which("lean") is None:
+        return None
+    return subprocess.Popen(["lean", src], stdout=subprocess.PIPE, stderr=subprocess.STDOUT, text=True, cwd=os.path.join(VERIF, "lean"))
+
+
+def lean_axioms_finish(proc):
+    if proc is None:
+        return {"status": "not run (lean or lean/Axioms.lean absent)"}
+    try:
+        out, _ = proc.communicate(timeout=1500)
+    except subprocess.TimeoutExpired:
+        proc.kill()
+        return {"status": "timeout"}
+    with open(os.path.join(VERIF, "lean", "Axioms.lean")) as fh:
+        text = fh.read()
+    bad = proc.returncode != 0 or "error" in out or "sorry" in out or "sorry" in text
+    return {"status": "rejected" if bad else "accepted", "theorems": text.count("\ntheorem "), "exit": proc.returncode,
+            "checker": "lean 4 + Mathlib", "output": out[-600:]}
+
+
 # ------------------------------------------------------------------------------ main check
 def main(argv=None):
     ap = argparse.ArgumentParser()
@@ -240,6 +268,7 @@ def do_check(a):
     findings = load_findings(prop)
     lock = load_lock()
 
+    lean_proc = lean_axioms_start() if tier == "thorough" else None
     sp = _pool(True, prop, a.jobs)
     listing = sp.apply(_w_list, (0,))
     if "error" in listing:
@@ -335,6 +364,9 @@ def do_check(a):
             diff_bad.append(f"{r['proof']}[{label.get((r['proof'], r['case_index']))}]: instrumented and plain package disagree on concrete inputs")
     if diff_bad:
         engine_errors.extend("differential: " + d for d in diff_bad)
+    lean = lean_axioms_finish(lean_proc) if tier == "thorough" else {"status": "not run in the quick tier (thorough tier re-checks lean/Axioms.lean)"}
+    if lean.get("status") in ("rejected", "timeout"):
+        engine_errors.append(f"A4: lean/Axioms.lean was not accepted by Lean: {lean}")
     if conf:
         engine_errors.append(f"model conformance failed (library model differs from the real function; proofs using it are void): {conf[:3]}")
 
@@ -512,6 +544,7 @@ def do_check(a):
                                      "evaluated at run time on the plain package",
                              "differential_instrumented_vs_plain": "agree" if not diff_bad else diff_bad[:5]},
             "model_conformance": "ok" if not conf else conf[:3],
+            "axioms_A4_lean": lean,
             "locked_obligations": len(locked),
             "engine_errors": engine_errors[:20],
             "notes": notes,
